@@ -109,4 +109,16 @@ def cacheRun : CacheState → List CacheOp → CacheState × List CacheRes
     let rr := cacheRun r.1 rest
     (rr.1, r.2 :: rr.2)
 
+/-! ### the tag / filter registries (`RegisterFilter`, `ReplaceFilter`, `RegisterTag`, `ReplaceTag`) -/
+
+inductive RegOp
+  | register (n : Bytes)
+  | replace (n : Bytes)
+  deriving DecidableEq, Repr
+
+/-- the set of registered names; `true` = the call returned nil -/
+def regStep (names : List Bytes) : RegOp → List Bytes × Bool
+  | .register n => if names.elem n then (names, false) else (names ++ [n], true)
+  | .replace n => if names.elem n then (names, true) else (names, false)
+
 end Pongo
